@@ -47,6 +47,9 @@ func runC16(r *Run) error {
 	if err := c16AncestorBatches(r); err != nil {
 		return err
 	}
+	if err := c16MaxHistory(r); err != nil {
+		return err
+	}
 	return c16Conc(r)
 }
 
@@ -1302,6 +1305,116 @@ func c16AncestorBatches(r *Run) error {
 		r.AddCase(fmt.Sprintf("(CSync %s %s %s)", sim.CoqListN(fresh), sim.CoqList(ann), sim.CoqNat(ends)),
 			map[string]interface{}{"kind": "sync", "sig": "store-replicated", "route": "load-more-from", "foreign_head_in_request": foreign != nil, "type": typ, "total": total, "kept": keep, "fresh": len(fresh), "batches": ends, "events": len(ann)}, len(fresh) > 0)
 		r.Count(fmt.Sprintf("ancestor-batch:fresh=%v", len(fresh) > 0))
+		s.Close()
+	}
+	return nil
+}
+
+// ---------------------------------------------------------------------------------------
+// Part F: replication into a store built with NewStoreOptions.MaxHistory (a limit on what Load
+// brings in): merged batches that make the log longer than that limit; at every replicated
+// event the announced entries are queried from inside the subscriber, as everywhere.
+// ---------------------------------------------------------------------------------------
+func c16MaxHistory(r *Run) error {
+	runs := 2
+	if r.Tier == "thorough" {
+		runs = 12
+	}
+	ctx := context.Background()
+	for ri := 0; ri < runs; ri++ {
+		typ := []string{"eventlog", "keyvalue"}[ri%2]
+		s, err := NewScen(2, typ, nil)
+		if err != nil {
+			return err
+		}
+		limit := 2 + r.Rng.Intn(4)
+		if err := s.Stores[1].Close(); err != nil {
+			return err
+		}
+		st, err := withMaxHistory(s.Reps[1].Orbit, limit, func() (iface.Store, error) {
+			return s.Reps[1].Orbit.Open(ctx, s.Addr, s.OpenOptions())
+		})
+		if err != nil {
+			return fmt.Errorf("open with MaxHistory: %w", err)
+		}
+		s.Stores[1] = st
+		sub, err := st.EventBus().Subscribe([]interface{}{new(stores.EventReplicated)}, eventbus.BufSize(1024))
+		if err != nil {
+			return err
+		}
+		obs := &evObserver{}
+		stop := make(chan struct{})
+		var swg sync.WaitGroup
+		swg.Add(1)
+		go func() {
+			defer swg.Done()
+			for {
+				select {
+				case e, ok := <-sub.Out():
+					if !ok {
+						return
+					}
+					if x := observeEvent(st, e); x != nil {
+						obs.add(*x)
+					}
+				case <-stop:
+					return
+				}
+			}
+		}()
+		batches := 1 + r.Rng.Intn(2)
+		k := 0
+		for b := 0; b < batches; b++ {
+			before := map[string]bool{}
+			for _, e := range st.OpLog().Values().Slice() {
+				before[e.GetHash().String()] = true
+			}
+			seen := len(obs.snapshot())
+			n := limit + 1 + r.Rng.Intn(5)
+			for i := 0; i < n; i++ {
+				var err error
+				switch x := s.Stores[0].(type) {
+				case iface.KeyValueStore:
+					_, err = x.Put(ctx, fmt.Sprintf("m%d", k), []byte(fmt.Sprintf("v%d-%d", ri, k)))
+				case iface.EventLogStore:
+					_, err = x.Add(ctx, []byte(fmt.Sprintf("v%d-%d", ri, k)))
+				}
+				if err != nil {
+					return err
+				}
+				k++
+			}
+			ends0 := sim.TheHooks.Count("replicator.load_end")
+			if err := s.SyncFrom(1, 0); err != nil {
+				return err
+			}
+			if !s.Settle() {
+				r.AddDirect("hang:sync", "replication into a store with MaxHistory did not settle", map[string]interface{}{"run": ri, "state": sim.LastSettleState})
+			}
+			ends := sim.TheHooks.Count("replicator.load_end") - ends0
+			deadline := time.Now().Add(10 * time.Second)
+			for len(obs.snapshot())-seen < ends && time.Now().Before(deadline) {
+				time.Sleep(2 * time.Millisecond)
+			}
+			var fresh []int
+			for _, e := range st.OpLog().Values().Slice() {
+				if !before[e.GetHash().String()] {
+					fresh = append(fresh, s.Canon.Hash.ID(e.GetHash().String()))
+				}
+			}
+			var ann []string
+			for _, x := range obs.snapshot()[seen:] {
+				if !x.write {
+					ann = append(ann, coqNB(s.Canon, x))
+				}
+			}
+			r.AddCase(fmt.Sprintf("(CSync %s %s %s)", sim.CoqListN(fresh), sim.CoqList(ann), sim.CoqNat(ends)),
+				map[string]interface{}{"kind": "sync", "sig": "store-replicated", "route": "sync-into-maxhistory-store", "type": typ, "max_history": limit, "batch": b, "written": n, "fresh": len(fresh), "batches": ends, "events": len(ann)}, len(fresh) > 0)
+			r.Count("maxhistory-replication-batch")
+		}
+		close(stop)
+		swg.Wait()
+		_ = sub.Close()
 		s.Close()
 	}
 	return nil
